@@ -11,6 +11,9 @@ reads; everything after `|` is reconstruction data):
   c17pvalue    <obs> <alpha> <pvalue|score|maxscore> <method hex> | <x f64 bits> <pssm>
   c17rc        <obs> <alpha> | <pssm>
   c17scan      <obs> <pssm alpha> <seq alpha> | <backend> <thr bits> <block> <L> <symbols> <pssm>
+  c17reuse     <obs> <k> <step kind>*k | <backend> <L> <symbols> (<thr bits> <block> <pssm>)*k
+                 ONE StripedSequence object (DNA) used by k steps in order; step kind := c (calculate) | s (scan()) | S (Scanner())
+                 obs = ok:chain… | <exception>@<step>
   c17create    <obs> <alpha> <n> <item>*n
   c17stripe    <obs> <alpha> <text hex>
   c17load      <obs> <file kind> <format hex> <protein> <n> (<kind> <obs>)*n | <hex file> [<chunk seed> <record boundaries b1,b2,… | ->]
@@ -647,6 +650,72 @@ def exec_scan(cx, head, tail):
     return " ".join(line.split()), "adm-ok", verdict(errs), nontrivial, key
 
 
+# ------------------------------------------------------------------ c17reuse
+def exec_reuse(cx, head, tail):
+    """reuse histories of ONE striped sequence object through calculate, scan() and Scanner(): every
+    step must configure the sequence for ITS motif (narrow then wide needs more look-ahead rows)"""
+    k = int(head[2])
+    kinds = head[3:3 + k]
+    tk = Toks(tail)
+    backend, L = tk.next(), tk.int()
+    syms = tk.ints(L)
+    steps = []
+    for _ in range(k):
+        thr, block = tk.int(), tk.int()
+        steps.append((thr, block, parse_pssm(tk, "dna")))
+    common.set_backend(backend)
+    seq = mk_striped(cx.lm, "dna", syms)
+    errs, outs, outcome = [], [], "ok"
+    for n, (kind, (thr, block, spec)) in enumerate(zip(kinds, steps)):
+        pssm = mk_pssm(cx.lm, "dna", spec)
+        t = bits_f32(thr)
+        rows = spec[0]
+        M = len(rows)
+        npos = max(0, L - M + 1)
+        want = [score_def("dna", rows, syms, p) for p in range(npos)]
+        if kind == "c":
+            g = guarded(lambda: scores_line(pssm.calculate(seq), thr))
+        else:
+            def run():
+                sc = (cx.lm.scan(pssm, seq, threshold=t, block_size=block) if kind == "s" else cx.lm.Scanner(pssm, seq, t, block))
+                hits = sorted((h.position, f32_bits(h.score)) for h in sc)
+                del sc      # the scanner refers to the sequence: gone before the sequence is used again
+                return hits
+            g = guarded(run)
+        what = {"c": "calculate()", "s": "scan()", "S": "Scanner()"}[kind]
+        hist = " -> ".join(f"{kk}:{len(st[2][0])}" for kk, st in zip(kinds[:n + 1], steps))
+        if g[0] != "ok":
+            outcome = f"{g[0]}@{n}"
+            errs.append(f"reuse history {hist} (step kind:motif rows) on one sequence of {L}: step {n} {what} raised {g[0]}: {g[1]}")
+            break
+        if kind == "c":
+            line, vals = g[1][0], g[1][1]
+            outs.append(line)
+            if vals != want:
+                errs.append(f"reuse history {hist}: step {n} calculate(): scores differ from Σ m[j][s[i+j]]")
+        else:
+            outs.append("ok " + " ".join(f"{p}:{s}" for p, s in g[1]))
+            if all(r_[-1] == NEG_INF for r_ in rows):
+                wh = [(p, s) for p, s in enumerate(want) if bits_f32(s) >= t]
+                if g[1] != wh:
+                    errs.append(f"reuse history {hist}: step {n} {what}: {len(g[1])} hits, the positions scoring >= {t!r} are {len(wh)}: "
+                                f"first difference {next((x for x in zip(g[1] + [None], wh + [None]) if x[0] != x[1]), None)}")
+    common.set_backend("auto")
+    labels = []
+    args = f"{L} {join(syms)} {k} " + " ".join(f"{'c' if kd == 'c' else 's'} {thr} {block} {pssm_tokens(spec)}" for kd, (thr, block, spec) in zip(kinds, steps))
+    r = cx.core.ask(backend, "reuse", "dna", args)
+    if outcome == "ok":
+        if [norm(x) for x in outs] == [norm(x) for x in r.split(" ; ")]:
+            labels.append("chain")
+        else:
+            errs.append("reuse history: Python scores / hits differ from the core library on the same data (one sequence configured before every step)")
+    line = (f"c17reuse {obs_of(outcome if '@' in outcome else 'ok', labels)} {k} {' '.join(kinds)} | {backend} {L} {join(syms)} "
+            + " ".join(f"{thr} {block} {pssm_tokens(spec)}" for thr, block, spec in steps))
+    widths = [len(st[2][0]) for st in steps]
+    grows = any(w > max(widths[:i]) for i, w in enumerate(widths) if i and kinds[i] != "c")
+    return " ".join(line.split()), "adm-ok", verdict(errs), grows, "reuse/" + "".join(kinds)
+
+
 # ------------------------------------------------------------------ c17create
 def motif_line(m):
     counts = m.counts
@@ -1057,7 +1126,7 @@ def exec_sminit(cx, head, tail):
 
 
 EXEC = {"c17normalize": exec_normalize, "c17logodds": exec_logodds, "c17calc": exec_calc, "c17pvalue": exec_pvalue,
-        "c17rc": exec_rc, "c17scan": exec_scan, "c17create": exec_create, "c17stripe": exec_stripe, "c17load": exec_load,
+        "c17rc": exec_rc, "c17scan": exec_scan, "c17reuse": exec_reuse, "c17create": exec_create, "c17stripe": exec_stripe, "c17load": exec_load,
         "c17cminit": exec_cminit, "c17sminit": exec_sminit}
 
 
@@ -1361,6 +1430,25 @@ def generate(cfg, core, out):
     for pa, sa in [("protein", "protein"), ("dna", "protein"), ("protein", "dna")]:
         syms = rand_syms(rng, sa, 40)
         cases.append(f"c17scan ? {pa} {sa} | auto {f32_bits(0.0)} 256 40 {join(syms)} {pssm_tokens((rand_pssm(rng, pa, 3), None))}")
+    # ---- ONE striped sequence object reused through calculate / scan() / Scanner() with motifs of
+    #      different widths: narrow then wide (more look-ahead rows needed), wide then narrow, three and four steps
+    histories = [("cs", "nw"), ("cS", "nw"), ("ss", "nw"), ("SS", "nw"), ("sS", "wn"), ("cs", "wn"), ("sc", "nw"),
+                 ("sSs", "nwm"), ("csc", "nmw"), ("sScS", "nwnw"), ("Scs", "wnx")]
+    for rep in range(1 if not big else 4):
+        for kinds, shape in histories:
+            L = rng.pick([40, 64, 100, 257, 700] + ([1500, 5000] if big else []))
+            syms = rand_syms(rng, "dna", L, wild=rng.chance(1, 3))
+            R = (L + 31) // 32
+            steps = []
+            for sh in shape:
+                M = {"n": rng.range(2, 6), "m": rng.range(7, 11), "w": rng.range(12, 22), "x": rng.range(23, 30)}[sh]
+                rows = logodds_pssm(rng, "dna", M, pseudo=rng.pick([0.1, 0.5, 1.0]))
+                scores = sorted(bits_f32(score_def("dna", rows, syms, p)) for p in range(L - M + 1))
+                finite = [x for x in scores if x > float("-inf")] or [0.0]
+                thr = rng.pick([scores[int(len(scores) * 0.9)], scores[len(scores) // 2], scores[-1], finite[0] - 1.0])
+                block = rng.pick([1, 3, 16, 256, max(1, R - 1), R, R + M - 1])
+                steps.append(f"{f32_bits(r32(thr))} {block} {pssm_tokens((rows, None))}")
+            cases.append(f"c17reuse ? {len(kinds)} {' '.join(kinds)} | {rng.pick(BACKENDS)} {L} {join(syms)} " + " ".join(steps))
     # ---- files in the four formats
     for fmt in ("jaspar", "jaspar16", "transfac", "uniprobe"):
         for rep in range(reps):
